@@ -402,6 +402,82 @@ fn drop_heavy_job(ctx: &Ctx, job: usize, histories: u64) -> Stats {
     st
 }
 
+/// One environment that grows LARGE (hundreds of thousands of distinct nodes): random functions
+/// over 10-11 variables are interned one after the other; then the earliest handles are
+/// re-inspected (still shared with the table, still the same function), old and new results are
+/// combined, and a sample of table entries is walked. Catches anything that depends on the size or
+/// age of the unique table (limits, resets, evictions).
+fn big_table_job(ctx: &Ctx, functions: usize) -> Stats {
+    let mut st = Stats::new();
+    let mut rng = Rng::stream(ctx.seed, "C13.bigtable", 0);
+    let nv = 10usize;
+    let labels: Vec<usize> = (0..nv).map(|i| i * 3 + 1).collect();
+    let vars = vars_of(&labels);
+    let idx = idx_fn(&labels);
+    let env: BDDEnv<usize> = BDDEnv::new();
+    let mut handles: Vec<(D, Tt)> = Vec::new();
+    let case = || json!({"kind": "big-table", "seed": ctx.seed, "functions": functions});
+    util::budget(u64::MAX, 1000);
+    let built = guarded(|| {
+        let mut hs: Vec<(D, Tt)> = Vec::new();
+        for _ in 0..functions {
+            let t = random_table(&mut rng, nv as u32, 8);
+            let d = build_in_env(&env, &t, &vars);
+            hs.push((d, t));
+        }
+        hs
+    });
+    match built {
+        Ok(hs) => handles = hs,
+        Err(c) => st.violate("c13.panic", format!("C13:big-table:{}", c.signature()), format!("building {} functions in one environment: {:?}", functions, c), case()),
+    }
+    st.evals += handles.len() as u64;
+    st.add("big_table_functions", handles.len() as u64);
+    st.max("max_table_size", env.size() as u64);
+    // the earliest and the latest handles
+    let sample: Vec<usize> = (0..handles.len().min(40)).chain(handles.len().saturating_sub(10)..handles.len()).collect();
+    for i in &sample {
+        let (d, t) = &handles[*i];
+        st.bump("handle_reinspections");
+        if tt_of_bdd(d, nv as u32, &idx).ok().as_ref() != Some(t) {
+            st.violate("c13.handle-stable", "C13:handle:function-changed".into(), format!("big environment ({} nodes): handle #{} denotes another function now", env.size(), i), case());
+        }
+        match guarded(|| check_interned(&env, d)) {
+            Ok(Ok(k)) => st.add("nodes_checked_for_sharing", k),
+            Ok(Err(m)) => {
+                st.violate("c13.sharing", "C13:sharing:handle-not-shared".into(), format!("big environment ({} table entries after {} functions): handle #{}: {}", env.size(), handles.len(), i, m), case());
+                break;
+            }
+            Err(c) => st.violate("c13.panic", format!("C13:big-table:{}", c.signature()), format!("{:?}", c), case()),
+        }
+    }
+    // old and new results combined: must equal the fresh-environment result and be shared
+    if handles.len() >= 2 {
+        for k in 0..20usize.min(handles.len() / 2) {
+            let (a, b) = (&handles[k], &handles[handles.len() - 1 - k]);
+            let r = guarded(|| env.or(env.and(Rc::clone(&a.0), Rc::clone(&b.0)), env.and(env.not(Rc::clone(&a.0)), Rc::clone(&a.0))));
+            let fresh: BDDEnv<usize> = BDDEnv::new();
+            let want = build_in_env(&fresh, &a.1.and(&b.1), &vars);
+            match r {
+                Ok(r) => {
+                    st.evals += 1;
+                    if r.as_ref() != want.as_ref() {
+                        st.violate("c13.history-independence", "C13:result:differs-from-fresh".into(), format!("big environment: and(old #{}, new) differs from the fresh-environment result", k), case());
+                    } else if let Ok(Err(m)) = guarded(|| check_interned(&env, &r)) {
+                        st.violate("c13.sharing", "C13:sharing:result-not-shared".into(), format!("big environment: and(old #{}, new): {}", k, m), case());
+                        break;
+                    }
+                }
+                Err(c) => st.violate("c13.panic", format!("C13:big-table:{}", c.signature()), format!("{:?}", c), case()),
+            }
+        }
+    }
+    if env.size() >= 50 {
+        st.nt.insert(mix(0xb16, functions as u64));
+    }
+    st
+}
+
 fn usize_job(ctx: &Ctx, job: usize, histories: u64, maxlen: usize) -> Stats {
     let mut st = Stats::new();
     for h in 0..histories {
@@ -507,12 +583,16 @@ fn shared_env_job(ctx: &Ctx, job: usize, rounds: u64) -> Stats {
 }
 
 pub fn run(ctx: &Ctx) -> (Stats, Spec) {
+    let big = ctx.tier.pick(3_600usize, 10_000usize);
     let (hist, maxlen, rounds) = ctx.tier.pick((300u64, 600usize, 2500u64), (1500u64, 3000usize, 20000u64));
     let st = with_stderr_gagged(|| {
         let parts = util::par_jobs(16, |job| {
             let mut s = usize_job(ctx, job, hist, maxlen);
             s.merge(shared_env_job(ctx, job, rounds));
             s.merge(drop_heavy_job(ctx, job, hist * 4));
+            if job == 0 {
+                s.merge(big_table_job(ctx, big));
+            }
             s
         });
         crate::report::merge_all(parts)
@@ -522,7 +602,7 @@ pub fn run(ctx: &Ctx) -> (Stats, Spec) {
         miri_tripwire(ctx, &mut st, 150);
     }
     let spec = Spec {
-        rule: "random histories of 100..600 [quick] / 100..3000 [thorough] public operations (var, const, 7 binary connectives, ite, exists/all/exists_impl, aln/amn/exn, count_*, fp with a closure calling back into the environment, model, infer, retain, clean, order-respecting mk_choice) on one BDDEnv<usize> over 5-6 sparse labels, operands drawn from all earlier handles (old ones preferred); third family: short histories in which handles are DROPPED after operations (a few, all non-constants, or all), `clean` is called often, and the environment's invariants (both leaves present, keys = values, children are table nodes) are walked after every step; second family: 2-13 formula evaluations (incl. re-evaluations) sharing one BDDEnv<NamedSymbol> under a common random ordering. distinct = hash of the operation list; non-trivial = >= 30% of operands are handles older than 20 steps and the table reached >= 50 nodes (shared-env: >= 4 evaluations, >= 20 nodes).".into(),
+        rule: "random histories of 100..600 [quick] / 100..3000 [thorough] public operations (var, const, 7 binary connectives, ite, exists/all/exists_impl, aln/amn/exn, count_*, fp with a closure calling back into the environment, model, infer, retain, clean, order-respecting mk_choice) on one BDDEnv<usize> over 5-6 sparse labels, operands drawn from all earlier handles (old ones preferred); fourth family: ONE environment grown to several hundred thousand distinct nodes (3 600 [quick] / 10 000 [thorough] random functions over 10 variables), after which the earliest handles are re-inspected and combined with the newest; third family: short histories in which handles are DROPPED after operations (a few, all non-constants, or all), `clean` is called often, and the environment's invariants (both leaves present, keys = values, children are table nodes) are walked after every step; second family: 2-13 formula evaluations (incl. re-evaluations) sharing one BDDEnv<NamedSymbol> under a common random ordering. distinct = hash of the operation list; non-trivial = >= 30% of operands are handles older than 20 steps and the table reached >= 50 nodes (shared-env: >= 4 evaluations, >= 20 nodes).".into(),
         assumptions: vec![
             "operands from other environments are never mixed in; formulas sharing an environment share one variable numbering".into(),
             "the unique table is inspected through the public `nodes` field at quiescent points; duplicates() is not used as an oracle".into(),
@@ -534,6 +614,7 @@ pub fn run(ctx: &Ctx) -> (Stats, Spec) {
             ("op_MkChoice".into(), 20, "mk_choice never exercised".into()),
             ("re_evaluations".into(), 50, "no re-evaluations in shared environments".into()),
             ("drop_heavy_histories".into(), 500, "histories with dropped handles hardly exercised".into()),
+            ("big_table_functions".into(), 1_000, "the large-environment history did not run".into()),
             ("all_handles_dropped".into(), 100, "dropping every handle never exercised".into()),
             ("nodes_checked_for_sharing".into(), 10_000, "sharing walker saw too few nodes".into()),
             ("distinct_nontrivial".into(), 50, "too few non-trivial histories".into()),
@@ -641,6 +722,13 @@ pub fn replay(_ctx: &Ctx, _monitor: &str, case: &Value, st: &mut Stats) {
         if let Err(m) = check_table(&env) {
             st.violate("c13.table", "C13:shared:table-invariant-broken".into(), m, case.clone());
         }
+        return;
+    }
+    if case.get("kind").and_then(|k| k.as_str()) == Some("big-table") {
+        let mut c2 = _ctx.clone();
+        c2.seed = case.get("seed").and_then(|j| j.as_u64()).unwrap_or(_ctx.seed);
+        let f = case.get("functions").and_then(|j| j.as_u64()).unwrap_or(1_600) as usize;
+        st.merge(big_table_job(&c2, f));
         return;
     }
     if case.get("kind").and_then(|k| k.as_str()) == Some("drop-heavy") {
